@@ -23,6 +23,7 @@ import (
 	"fmt"
 	"go/token"
 	"runtime"
+	"sort"
 	"strings"
 
 	"github.com/awslabs/ar-go-tools/analysis"
@@ -188,6 +189,8 @@ type Visitor struct {
 	Traces        map[df.GraphNode][]Trace
 	Errs          []error
 	prevEdgeInfos map[*df.CallNodeArg][]df.EdgeInfo
+	// nextKeySuffix is appended to the key under which the next node is recorded as seen (see addNext)
+	nextKeySuffix string
 }
 
 // Visit runs an inter-procedural backwards analysis to add any detected backtraces to v.Traces.
@@ -446,16 +449,22 @@ func (v *Visitor) visit(s *df.AnalyzerState, entrypoint *df.CallNodeArg) error {
 						Trace:        tr,
 						ClosureTrace: cur.ClosureTrace,
 					}
+					// The incoming edge map keeps a single edge per source node; when several elements of the
+					// tuple returned by the same call flow to this argument, all the edges are on the source side.
+					infos := nextNode.Out()[graphNode]
+					if len(infos) == 0 {
+						infos = []df.EdgeInfo{edgeInfo}
+					}
+					// A call node is visited once per set of tuple elements that are traced into it: an argument of
+					// another call may need other elements of the same call's result.
+					if _, isCall := nextNode.(*df.CallNode); isCall {
+						v.nextKeySuffix = tupleIndicesKey(infos)
+					}
 					var added bool
 					stack, added = v.addNext(s, stack, cur, nextNodeWithTrace, cur.Status, df.EdgeInfo{}, seen)
+					v.nextKeySuffix = ""
 					if added {
-						// The incoming edge map keeps a single edge per source node; when several elements of the
-						// tuple returned by the same call flow to this argument, all the edges are on the source side.
-						if outInfos := nextNode.Out()[graphNode]; len(outInfos) > 0 {
-							v.prevEdgeInfos[graphNode] = append(v.prevEdgeInfos[graphNode], outInfos...)
-						} else {
-							v.prevEdgeInfos[graphNode] = append(v.prevEdgeInfos[graphNode], edgeInfo)
-						}
+						v.prevEdgeInfos[graphNode] = append(v.prevEdgeInfos[graphNode], infos...)
 					}
 				}
 			}
@@ -820,7 +829,7 @@ func (v *Visitor) addNext(s *df.AnalyzerState,
 	}
 
 	// First set of stop conditions: node has already been seen, or depth exceeds limit
-	key := nextVisitorNode.Key()
+	key := nextVisitorNode.Key() + df.KeyType(v.nextKeySuffix)
 	if seen[key] || s.Config.ExceedsMaxDepth(cur.Depth) {
 		s.Logger.Tracef("Will not add %v\n", nextNodeWithTrace.Node.String())
 		s.Logger.Tracef("\tseen? %v, depth %v\n", seen[key], cur.Depth)
@@ -843,6 +852,20 @@ func (v *Visitor) addNext(s *df.AnalyzerState,
 	stack = append(stack, nextVisitorNode)
 	seen[key] = true
 	return stack, true
+}
+
+// tupleIndicesKey returns a key for the set of tuple indices carried by the edge infos.
+func tupleIndicesKey(infos []df.EdgeInfo) string {
+	indices := map[int]bool{}
+	for _, info := range infos {
+		indices[info.Index] = true
+	}
+	sorted := make([]int, 0, len(indices))
+	for i := range indices {
+		sorted = append(sorted, i)
+	}
+	sort.Ints(sorted)
+	return fmt.Sprintf("#%v", sorted)
 }
 
 // isBaseCase returns true if the analysis should not analyze node any further.
